@@ -16,9 +16,7 @@ open Mahotas
 
 /-! ## smallest and largest occurring level -/
 
-/-- index of the first non-zero bin (as in `rcSpec`), 0 if there is none -/
-def loOf (hist : List Nat) : Nat :=
-  ((hist.zipIdx.find? fun (v, _) => v ≠ 0).map (·.2)).getD 0
+-- `loOf` (index of the first non-zero bin) is defined in `Model/C16.lean`
 
 theorem hOf_of_lt (hist : List Nat) {i : Nat} (h : i < hist.length) : hOf hist i = hist[i] := by
   rw [hOf_eq, List.getD_eq_getElem?_getD, List.getElem?_eq_getElem h]; rfl
